@@ -46,6 +46,21 @@ class VirtualHosts(BaseComponent):
         self.domains = domains
         self.trusted_gateways = trusted_gateways
 
+    def _peer(self, request):
+        """
+        The address of the transport peer. (request.remote is what a header
+        says once tools.ReverseProxy has seen the request object, and a
+        request object may be dispatched more than once.)
+        """
+        sock = getattr(request, 'sock', None)
+        if sock is None:
+            return request.remote.ip
+        try:
+            name = sock.getpeername()
+        except OSError:
+            return None
+        return name[0] if isinstance(name, tuple) else None
+
     # (above tools.ReverseProxy, which replaces request.remote by what a header
     # says: the trust decision must see the address of the real peer)
     @handler('request', priority=1.5)
@@ -54,7 +69,8 @@ class VirtualHosts(BaseComponent):
 
         header = request.headers.get
         domain = header('Host', '')
-        if self.trusted_gateways is None or request.remote.ip in self.trusted_gateways:
+        peer = self._peer(request)
+        if self.trusted_gateways is None or peer in self.trusted_gateways:
             forwarded = header('X-Forwarded-Host', '').split(',')[0].strip().lower()
             if forwarded:
                 domain = forwarded
